@@ -32,6 +32,7 @@ AllFaultKinds == {"read", "importsyntax", "body", "foreign"}
 
 VARIABLES
   imports,   \* [Files -> Seq(Files)]: import statements of each file in text order
+  aliases,   \* [Files -> Seq(STRING)]: the `as <name>' of each import statement ("" = none), same length
   fail,      \* [Files -> {"none"} \cup FaultKinds]
   maxd,      \* depth limit of this compile (0 = unlimited)
   retrieved, \* [Files -> [claimed : BOOLEAN, depth : Int, read : BOOLEAN]]   the shared map
@@ -39,7 +40,7 @@ VARIABLES
   reads,     \* [Files -> Nat] number of reader calls per canonical file
   outcome    \* [kind : {"none","model","error"}, files : Seq(Files), culprits : SUBSET Files]
 
-vars == <<imports, fail, maxd, retrieved, gs, reads, outcome>>
+vars == <<imports, aliases, fail, maxd, retrieved, gs, reads, outcome>>
 
 Range(s) == {s[i] : i \in DOMAIN s}
 
@@ -82,13 +83,14 @@ PreOrder(d) == Visit(<<>>, Root, Near(d), [f \in Files |-> Edges(f)])
 -----------------------------------------------------------------------------
 ImportLists == UNION {[1..n -> Files] : n \in 0..MaxImports}
 
-Retrieved0 == [f \in Files |-> [claimed |-> FALSE, depth |-> -1, read |-> FALSE]]
-Gs0        == << [file |-> Root, depth |-> 0, parent |-> 0, pc |-> "start", err |-> {}] >>
+Retrieved0 == [f \in Files |-> [claimed |-> FALSE, depth |-> -1, read |-> FALSE, as |-> ""]]
+Gs0        == << [file |-> Root, depth |-> 0, parent |-> 0, pc |-> "start", err |-> {}, as |-> ""] >>
 Reads0     == [f \in Files |-> 0]
 Outcome0   == [kind |-> "none", files |-> <<>>, culprits |-> {}]
 
 InitWith(imps, fl, d) ==
   /\ imports = imps
+  /\ aliases = [f \in Files |-> [i \in DOMAIN imps[f] |-> ""]]
   /\ fail = fl
   /\ maxd = d
   /\ retrieved = Retrieved0
@@ -120,17 +122,20 @@ IsClaim(g) == ~IsCut(g) /\ ~retrieved[gs[g].file].claimed
 
 Cut(g) == /\ gs[g].pc = "start" /\ IsCut(g)
           /\ SetPc(g, "done")
-          /\ UNCHANGED <<imports, fail, maxd, retrieved, reads, outcome>>
+          /\ UNCHANGED <<imports, aliases, fail, maxd, retrieved, reads, outcome>>
 
+\* a file already claimed: nothing to do, unless this import names the file's application differently
+\* from the import that claimed it (an error naming the file)
 Dup(g) == /\ gs[g].pc = "start" /\ IsDup(g)
-          /\ SetPc(g, "done")
-          /\ UNCHANGED <<imports, fail, maxd, retrieved, reads, outcome>>
+          /\ IF retrieved[gs[g].file].as = gs[g].as THEN SetPc(g, "done")
+             ELSE gs' = [gs EXCEPT ![g].pc = "done", ![g].err = {gs[g].file}]
+          /\ UNCHANGED <<imports, aliases, fail, maxd, retrieved, reads, outcome>>
 
 Claim(g) == /\ gs[g].pc = "start" /\ IsClaim(g)
             /\ retrieved' = [retrieved EXCEPT ![gs[g].file] =
-                               [claimed |-> TRUE, depth |-> gs[g].depth, read |-> FALSE]]
+                               [claimed |-> TRUE, depth |-> gs[g].depth, read |-> FALSE, as |-> gs[g].as]]
             /\ SetPc(g, "reading")
-            /\ UNCHANGED <<imports, fail, maxd, reads, outcome>>
+            /\ UNCHANGED <<imports, aliases, fail, maxd, reads, outcome>>
 
 Enter(g) == Cut(g) \/ Dup(g) \/ Claim(g)
 
@@ -140,7 +145,7 @@ ReadFail(g) ==
   /\ gs[g].pc = "reading" /\ fail[f] = "read"
   /\ reads' = [reads EXCEPT ![f] = @ + 1]
   /\ gs' = [gs EXCEPT ![g].pc = "done", ![g].err = {f}]
-  /\ UNCHANGED <<imports, fail, maxd, retrieved, outcome>>
+  /\ UNCHANGED <<imports, aliases, fail, maxd, retrieved, outcome>>
 
 ReadOK(g) ==
   LET f == gs[g].file IN
@@ -152,9 +157,9 @@ ReadOK(g) ==
        ELSE /\ retrieved' = [retrieved EXCEPT ![f].read = TRUE]
             /\ LET kids == [i \in 1..Len(Edges(f)) |->
                               [file |-> Edges(f)[i], depth |-> gs[g].depth + 1,
-                               parent |-> g, pc |-> "start", err |-> {}]]
+                               parent |-> g, pc |-> "start", err |-> {}, as |-> aliases[f][i]]]
                IN gs' = [gs EXCEPT ![g].pc = IF kids = <<>> THEN "done" ELSE "spawned"] \o kids
-  /\ UNCHANGED <<imports, fail, maxd, outcome>>
+  /\ UNCHANGED <<imports, aliases, fail, maxd, outcome>>
 
 \* --- after the root goroutine has joined -----------------------------------
 Claimed == {f \in Files : retrieved[f].claimed}
@@ -181,7 +186,7 @@ FinishOutcomes ==
 Finish ==
   /\ outcome.kind = "none" /\ Done(1)
   /\ outcome' \in FinishOutcomes
-  /\ UNCHANGED <<imports, fail, maxd, retrieved, gs, reads>>
+  /\ UNCHANGED <<imports, aliases, fail, maxd, retrieved, gs, reads>>
 
 Next == \/ \E g \in DOMAIN gs : Enter(g) \/ ReadOK(g) \/ ReadFail(g)
         \/ Finish
@@ -202,8 +207,15 @@ ReadOnlyClaimed == \A f \in Files : reads[f] > 0 => retrieved[f].claimed
 
 Finished == outcome.kind # "none"
 
+\* names under which a file is imported by the import statements that are followed (the root is
+\* compiled under no name); more than one name is a conflict the compile must report
+NamesOf(f) == (IF f = Root THEN {""} ELSE {}) \cup
+              {aliases[p][i] : <<p, i>> \in {<<q, j>> \in Near(maxd) \X (1..8) :
+                                  j \in DOMAIN Edges(q) /\ Edges(q)[j] = f}}
+Conflicts == IF maxd # 0 THEN {} ELSE {f \in Reachable : Cardinality(NamesOf(f)) > 1}
+
 \* files with a fault that the compile must see
-FaultsInScope == {f \in Near(maxd) : fail[f] # "none"}
+FaultsInScope == {f \in Near(maxd) : fail[f] # "none"} \cup Conflicts
 
 \* C05: exactly the files nearer than the limit (all reachable ones without a limit)
 ClosureExact == outcome.kind = "model" => Range(outcome.files) = Near(maxd)
@@ -217,7 +229,7 @@ FailureFails == (Finished /\ FaultsInScope # {}) => outcome.kind = "error"
 \* ... and a fault-free closure compiles
 SuccessSucceeds == (Finished /\ FaultsInScope = {}) => outcome.kind = "model"
 \* C06: the reported error names a file that really failed
-CulpritNamed == outcome.kind = "error" => \E c \in outcome.culprits : fail[c] # "none"
+CulpritNamed == outcome.kind = "error" => \E c \in outcome.culprits : fail[c] # "none" \/ c \in Conflicts
 \* C06: no model next to an error
 NoPartialModel == outcome.kind = "error" => outcome.files = <<>>
 
